@@ -116,7 +116,11 @@ CHECKS = {
                      "are observed at refusing TCP listeners; MonHub judges dials, unregister (connection closed, trust cleared) and "
                      "cancel (pending handshake aborted, no connection left that cannot be aborted) on the real observations. The multi-hub "
                      "part of the quantifier is Hub2.tla + scripts on two real hubs (composed into this check): nobody trusts or completes "
-                     "without both users' word, nothing alive or dialled at a hub that was shut down.", ref="6.C10",
+                     "without both users' word, nothing alive or dialled at a hub that was shut down, no dial becomes a connection after "
+                     "Unregister / CancelPairing returned, no dialled connection open at rest without the user's word. Hub2 is also checked "
+                     "with CancelPairingWithSKI as the two steps it is in the code (CancelSplit; the old order of the steps is kept as a "
+                     "control that must violate P_C10_trust); on the real hubs the call is held between its steps (hook hub.VerifPoint) "
+                     "and a slow network puts user operations into the dial window.", ref="6.C10",
                 note="trusted: TLC; connection objects are harness fakes (the SME layer is checked separately); the random dial back-off "
                      "is scaled to zero through the verif delay hook"),
     "C15": dict(engine="hub", technique="TLA+ model HubApi defined on SKI identities + every behaviour replayed twice (canonical / re-spelled) on a real hub.Hub, TLC monitor",
@@ -130,9 +134,10 @@ CHECKS = {
                      "reports and TLC checks 'last processed report = table' for every delivery order. TLC-simulated event sequences "
                      "(valid / invalid TXT classes, address sets incl. IPv6 link-local, removes of unknown services) with a delivery "
                      "order are fed to a real MdnsManager through its own resolver callback; the monitor folds the oracle over the "
-                     "recorded events and compares the manager's table after every event and the last report at quiescence.", ref="6.C17",
+                     "recorded events and compares the manager's table after every event and the last report at quiescence. A second "
+                     "pass runs the same sequences as bursts on one processor, where the report goroutine spawned last runs first.", ref="6.C17",
                 note="trusted: TLC; the provider below the manager is a stand-in; a late report goroutine is emulated by a delay in the "
-                     "report callback"),
+                     "report callback and by the run-last-spawned-first order of a single processor"),
     "C18": dict(engine="hub", technique="TLA+ model HubApi (stored details, delayed notes) + replay into a real hub.Hub with the real 500 ms notification goroutines, TLC monitor",
                 text="Every HandleShipHandshakeStateUpdate of a replayed behaviour stores a detail and starts the real delayed "
                      "notification goroutine; the harness records store order (by detail identity) and delivery order; the TLC monitor "
